@@ -1332,20 +1332,75 @@ func (ev *Event) Serialize() ([]byte, error) {
 		return nil, errors.New("nil event")
 	}
 
-	v := [6]any{
-		0,
-		ev.Pubkey,
-		ev.CreatedAt,
-		ev.Kind,
-		ev.Tags,
-		ev.Content,
+	// NIP-01: [0,pubkey,created_at,kind,tags,content] as compact JSON whose
+	// strings use only the escapes NIP-01 lists. encoding/json additionally
+	// escapes <, >, &, U+2028 and U+2029, which changes the hashed bytes.
+	ret := make([]byte, 0, 256+len(ev.Content))
+	ret = append(ret, "[0,"...)
+	ret = appendNIP01String(ret, ev.Pubkey)
+	ret = append(ret, ',')
+	ret = strconv.AppendInt(ret, ev.CreatedAt, 10)
+	ret = append(ret, ',')
+	ret = strconv.AppendInt(ret, ev.Kind, 10)
+	ret = append(ret, ',')
+	if ev.Tags == nil {
+		ret = append(ret, nullJSON...)
+	} else {
+		ret = append(ret, '[')
+		for i, tag := range ev.Tags {
+			if i > 0 {
+				ret = append(ret, ',')
+			}
+			if tag == nil {
+				ret = append(ret, nullJSON...)
+				continue
+			}
+			ret = append(ret, '[')
+			for j, elem := range tag {
+				if j > 0 {
+					ret = append(ret, ',')
+				}
+				ret = appendNIP01String(ret, elem)
+			}
+			ret = append(ret, ']')
+		}
+		ret = append(ret, ']')
 	}
+	ret = append(ret, ',')
+	ret = appendNIP01String(ret, ev.Content)
+	ret = append(ret, ']')
 
-	ret, err := json.Marshal(&v)
-	if err != nil {
-		return nil, fmt.Errorf("failed to marshal event: %w", err)
-	}
 	return ret, nil
+}
+
+// nip01Escapes holds the escape sequences NIP-01 prescribes, by byte.
+var nip01Escapes = [256]string{
+	'\n': `\n`,
+	'"':  `\"`,
+	'\\': `\\`,
+	'\r': `\r`,
+	'\t': `\t`,
+	'\b': `\b`,
+	'\f': `\f`,
+}
+
+const nip01HexDigits = "0123456789abcdef"
+
+// appendNIP01String appends s as a JSON string: the NIP-01 escapes, the
+// remaining control characters as \u00xx, every other byte verbatim.
+func appendNIP01String(dst []byte, s string) []byte {
+	dst = append(dst, '"')
+	for i := 0; i < len(s); i++ {
+		c := s[i]
+		if esc := nip01Escapes[c]; esc != "" {
+			dst = append(dst, esc...)
+		} else if c < 0x20 {
+			dst = append(dst, '\\', 'u', '0', '0', nip01HexDigits[c>>4], nip01HexDigits[c&0xf])
+		} else {
+			dst = append(dst, c)
+		}
+	}
+	return append(dst, '"')
 }
 
 func (ev *Event) Verify() (bool, error) {
